@@ -7,10 +7,10 @@ from rig import Infra
 META = {
     "title": "Escaped values decode back to the original",
     "engine": "Escapers",
-    "technique": "TLA+ reference decoders written from the standards (HTML character references, ECMAScript and JSON string literals, CSS escapes, percent-decoding) + branch-by-branch transcription of scriggo's escapers, model-checked by TLC (Decode(Escape(s)) = s for every string over per-language class alphabets); the same strings, the slice 'escape-relevant byte x every ASCII successor' and seeded random valid/invalid UTF-8 are rendered by real templates in 12 string-bearing contexts and every rendered slice is decoded and judged by the TLC Trace spec",
+    "technique": "TLA+ reference decoders written from the standards (HTML character references, ECMAScript and JSON string literals, CSS escapes, percent-decoding) + branch-by-branch transcription of scriggo's escapers, model-checked by TLC (Decode(Escape(s)) = s for every string over per-language class alphabets); the same strings, the slice 'escape-relevant byte x every ASCII successor' and seeded random valid/invalid UTF-8 are rendered by real templates in 13 string-bearing contexts and every rendered slice is decoded and judged by the TLC Trace spec",
     "level": "model_checking",
-    "level_text": "TLC checks, for every string of up to 2 (quick) / 3 (thorough) tokens over an 18-token class alphabet per target language and up to 3 (quick) / 5 (thorough) tokens over its 10-token core alphabet, that each transcribed escaper followed by the reference decoder of its context is the identity (and that the as-found CSS separator rule fails exactly on 'hex escape followed by c-f/C-F'). The exported strings, all single bytes, the pair slice (escape-relevant byte followed by each of the 128 ASCII bytes and 8 non-ASCII successors) and seeded random strings are rendered through Template.Run in 12 contexts (HTML text, 3 attribute forms, JS string in <script> and .js, JSON string, CSS string in <style> and .css, URL query value, URL path quoted/unquoted); TLC decodes each real output slice with the reference decoder and compares it with the input.",
-    "level_note": "Trusted: TLC, the Json community module, the Go driver (builds 12 fixed templates, runs them, slices the output between the fixed text, logs - no decoding in Go). The named-character-reference table of the reference holds the 55 names denoting ASCII/U+00A0 (not all 2231). Exceptions to exact equality, listed in Escapers.tla: NUL in HTML and CSS, bytes that are not valid UTF-8 outside URLs. URL path position is judged modulo pre-existing percent-escapes (reading documented in the spec). Exhaustive up to the stated token lengths only; <script>/<style> termination is C06.",
+    "level_text": "TLC checks, for every string of up to 2 (quick) / 4 (thorough) tokens over an 18-token class alphabet per target language, up to 4 (quick) / 5 (thorough) tokens over its 10-token core alphabet, every single byte and the pair slice, that each transcribed escaper followed by the reference decoder of its context is the identity (and that the as-found CSS separator rule fails exactly on 'hex escape followed by c-f/C-F'). The exported strings, all single bytes, the pair slice (escape-relevant byte followed by each of the 128 ASCII bytes and 8 non-ASCII successors) and seeded random strings are rendered through Template.Run in 13 contexts (HTML text, 3 attribute forms, JS string in <script> and .js, JSON string, CSS string in <style> and .css and a .css string where a hex letter follows the value, URL query value, URL path quoted/unquoted); TLC decodes each real output slice with the reference decoder and compares it with the input.",
+    "level_note": "Trusted: TLC, the Json community module, the Go driver (builds 13 fixed templates, runs them, slices the output between the fixed text, logs - no decoding in Go). The named-character-reference table of the reference holds the 55 names denoting ASCII/U+00A0 (not all 2231). Exceptions to exact equality, listed in Escapers.tla: NUL in HTML and CSS, bytes that are not valid UTF-8 outside URLs. URL path position is judged modulo pre-existing percent-escapes (reading documented in the spec). Exhaustive up to the stated token lengths only; <script>/<style> termination is C06.",
     "design_ref": "7/C07",
 }
 
@@ -27,10 +27,10 @@ FAMS = ["escapers"]
 MC_INVS = ["RoundTrip", "CssAsFoundExtent", "UrlPreIdentity"]
 PAR = max(2, min(8, rig.NCPU // 2))       # Trace shards judged by concurrent TLC processes
 RULE = ("per target language, every string of <= GenLen tokens over its 18-token class alphabet and <= GenCore tokens "
-        "over its 10-token core alphabet (exported by TLC) x the contexts of that language; every single byte x 12 contexts; "
+        "over its 10-token core alphabet (exported by TLC) x the contexts of that language; every single byte x 13 contexts; "
         "every pair (escape-relevant byte, ASCII byte 0..127 or one of 8 non-ASCII successors) x the contexts of the "
-        "language (quick) / x 12 contexts for all 53 escape-relevant bytes (thorough); seeded random valid/invalid UTF-8 "
-        "x 12 contexts; non-trivial = the rendered slice differs from the input")
+        "language (quick) / x 13 contexts for all 53 escape-relevant bytes (thorough); seeded random valid/invalid UTF-8 "
+        "x 13 contexts; non-trivial = the rendered slice differs from the input")
 
 
 def judge(ctx, step, recs):
@@ -133,9 +133,8 @@ def run(ctx, replay_case=None):
     if both:
         ctx.cov["model_drift"] = ("real output differs from BOTH transcriptions of the escapers on at least %d of %d records "
                                   "(diagnostic only; the verdict is from the reference decoders)" % (both, diag["records"]))
-    # 4. reproduction guard: the failing cases again, in a fresh process, judged again - together with
-    # 5. the sensitivity self-test: corrupted observations must be rejected by the same Trace spec
-    post = []
+    # 4. reproduction guard: the failing cases again, in a fresh process, judged again
+    confirmed = []
     if bads:
         bads = bads[:300]       # (the Trace spec keeps at most 400 representatives per run; 10 are reported)
         seen, cc = set(), []
@@ -146,22 +145,23 @@ def run(ctx, replay_case=None):
                 cc.append(dict(case_of(b["obs"]), id=len(cc) + 1))
         rig.write_ndjson(ctx.work / "confirm_cases.ndjson", cc)
         ctx.drive("c07", ctx.work / "confirm_cases.ndjson", ctx.work / "confirm_obs.ndjson")
-        post = rig.read_ndjson(ctx.work / "confirm_obs.ndjson")
+        b2, _ = judge(ctx, "trace_confirm", rig.read_ndjson(ctx.work / "confirm_obs.ndjson"))
+        keys2 = {json.dumps(b["sig"], sort_keys=True) for b in b2}
+        confirmed = [b for b in bads if json.dumps(b["sig"], sort_keys=True) in keys2]
+        ctx.cov["unreproduced"] = len(bads) - len(confirmed)
+        for b in confirmed:
+            b["what"] = sample(b["obs"])
+    # 5. sensitivity self-test: corrupted observations must be rejected by the same Trace spec
+    #    (own run: the Trace spec keeps one record per signature, and a corrupted copy has the signature of its original)
     okobs = [o for o in allobs if o["st"] == "ok"]
     st = [corrupt(json.loads(json.dumps(o))) for o in
           rig.pick_samples([o for o in okobs if o["out"] != o["s"]] or okobs, 3, ctx.seed + 7)]
     for i, o in enumerate(st):
         o["id"] = 900001 + i
-    b2, _ = judge(ctx, "trace_post", st + post)
-    rejected = {b["obs"]["id"] for b in b2 if b["obs"]["id"] >= 900001}
-    ctx.cov["sensitivity_selftest"] = {"corrupted": len(st), "rejected": len(rejected)}
-    if len(rejected) < len(st):
-        raise Infra(f"sensitivity self-test failed: {len(st)} corrupted observations, only {len(rejected)} rejected")
-    keys2 = {json.dumps(b["sig"], sort_keys=True) for b in b2 if b["obs"]["id"] < 900001}
-    confirmed = [b for b in bads if json.dumps(b["sig"], sort_keys=True) in keys2]
-    ctx.cov["unreproduced"] = len(bads) - len(confirmed)
-    for b in confirmed:
-        b["what"] = sample(b["obs"])
+    _, d3 = judge(ctx, "trace_selftest", st)
+    ctx.cov["sensitivity_selftest"] = {"corrupted": len(st), "rejected": d3["nbad"]}
+    if d3["nbad"] < len(st):
+        raise Infra(f"sensitivity self-test failed: {len(st)} corrupted observations, only {d3['nbad']} rejected")
 
     # 6. verdict
     def rw(rdir, b):
